@@ -143,6 +143,16 @@ pub fn run(a: &Args) {
         chunks.push(Chunk::new(b"IEND", vec![]));
         files.push((format!("bigchunk{}", n), assemble(&chunks)));
     }
+    // images whose IHDR-derived size is exactly a power-of-two multiple of the inflater's block size while the IDAT stream carries more data
+    // than IHDR announces (the inflater's output limit and its buffer end then coincide)
+    for (w, h, extra_rows) in [(127u32, 256u32, 256usize), (255, 128, 40), (511, 256, 300), (63, 512, 3)] {
+        let raw: Vec<u8> = (0..(h as usize + extra_rows) * (w as usize + 1)).map(|i| if i % (w as usize + 1) == 0 { 0 } else { (i / 97) as u8 }).collect();
+        let z = crate::pngbuild::zlib_flate2(&raw, 6);
+        let mut chunks = vec![ihdr(w, h, 8, 0, 0)];
+        for c in z.chunks(8000) { chunks.push(Chunk::new(b"IDAT", c.to_vec())); }
+        chunks.push(Chunk::new(b"IEND", vec![]));
+        files.push((format!("idat-longer-than-ihdr-{}x{}+{}", w, h, extra_rows), assemble(&chunks)));
+    }
     for (n, b) in corpus_files(if thorough { 32768 } else { 3000 }, if thorough { 500 } else { 60 }, &mut rng) {
         files.push((n, b));
     }
